@@ -85,7 +85,7 @@ func (fx *FuncCtx) builtin(st *State, x *ssa.Call, b *ssa.Builtin) Value {
 		if len(cc.Args) == 1 {
 			return dst
 		}
-		return fx.appendSlice(st, dst, st.val(cc.Args[1]), x.Pos())
+		return fx.appendSlice(st, dst, st.val(cc.Args[1]), x.Pos(), x)
 	case "copy":
 		dst := st.val(cc.Args[0]).(SliceVal)
 		var soff, slen Term
@@ -152,7 +152,7 @@ func Eq2(a, b Term) Term { return StructEq(a, b) }
 
 // appendSlice models append with copy semantics: the result lives in a fresh backing array.
 // (Assumption A-append: nothing observes, through an older header, elements written beyond that header's length.)
-func (fx *FuncCtx) appendSlice(st *State, dst SliceVal, more Value, pos token.Pos) Value {
+func (fx *FuncCtx) appendSlice(st *State, dst SliceVal, more Value, pos token.Pos, site ssa.Instruction) Value {
 	var n Term
 	var srcArr ArrayVal
 	var soff Term
@@ -165,7 +165,7 @@ func (fx *FuncCtx) appendSlice(st *State, dst SliceVal, more Value, pos token.Po
 		panic(fmt.Sprintf("append of %T", more))
 	}
 	da := st.baseArr(dst.Base)
-	o := fx.newObject(types.NewArray(dst.ElemT, 0), "append")
+	o := st.siteObject(site, types.NewArray(dst.ElemT, 0), "append")
 	st.heap[o] = da
 	nb := PtrVal{Obj: o, Nil: False()}
 	fx.bulkCopy(st, nb, BVAdd(dst.Off, dst.Len), srcArr, soff, n)
@@ -280,6 +280,19 @@ func (fx *FuncCtx) applyContract(st *State, x *ssa.Call, callee *ssa.Function, c
 		bound = append(bound, b)
 		env.vars[g.Name] = b
 	}
+	if callee == fx.fn {
+		if ds := ct.Decreases["rec"]; len(ds) > 0 {
+			for _, c := range ds {
+				nv := env.eval(c.Expr).(Term)
+				ov := fx.specEnv(fx.entry, nil).eval(c.Expr).(Term)
+				g := And(BVSle(BVConst(nv.So.W, 0), ov), BVSlt(nv, ov))
+				cc := c
+				st.obligeP("decreases", "rec.decreases#"+c.Name, g, ct.propsOf(&cc), x.Pos())
+			}
+		} else if ct.Safe {
+			st.obligeP("decreases", "rec.decreases#missing", False(), ct.SafeProps, x.Pos())
+		}
+	}
 	var ghostReq []Term
 	for _, c := range ct.Requires {
 		t := env.evalBool(c.Expr)
@@ -298,7 +311,7 @@ func (fx *FuncCtx) applyContract(st *State, x *ssa.Call, callee *ssa.Function, c
 			continue
 		}
 		old := st.Load(p, nil)
-		nv := fx.havocValue(old, "post."+callee.Name())
+		nv := fx.havocValueKeep(old, "post."+callee.Name(), false)
 		st.Store(p, nv)
 	}
 	// results
@@ -382,7 +395,7 @@ func (fx *FuncCtx) extern(st *State, x *ssa.Call, callee *ssa.Function, args []V
 		return And(inf, Or(Eq(sg, zero), And(BVSlt(zero, sg), Not(neg)), And(BVSlt(sg, zero), neg))), true
 	case "math.Abs":
 		return Term{S: "(fp.abs " + args[0].(Term).S + ")", So: SFP}, true
-	case "(encoding/binary.littleEndian).Uint64", "(encoding/binary.littleEndian).Uint32", "(encoding/binary.littleEndian).Uint16":
+	case "encoding/binary.(littleEndian).Uint64", "encoding/binary.(littleEndian).Uint32", "encoding/binary.(littleEndian).Uint16":
 		n := map[string]int{"Uint64": 8, "Uint32": 4, "Uint16": 2}[callee.Name()]
 		sv := args[len(args)-1].(SliceVal)
 		site := fx.siteText(f.fn, x.Pos(), "call")
@@ -395,7 +408,7 @@ func (fx *FuncCtx) extern(st *State, x *ssa.Call, callee *ssa.Function, args []V
 			r = Concat(Select(arr, BVAdd(sv.Off, i64(int64(k)))), r)
 		}
 		return r, true
-	case "(encoding/binary.littleEndian).PutUint64", "(encoding/binary.littleEndian).PutUint32":
+	case "encoding/binary.(littleEndian).PutUint64", "encoding/binary.(littleEndian).PutUint32":
 		n := map[string]int{"PutUint64": 8, "PutUint32": 4}[callee.Name()]
 		sv := args[len(args)-2].(SliceVal)
 		v := args[len(args)-1].(Term)
@@ -442,8 +455,8 @@ func (fx *FuncCtx) extern(st *State, x *ssa.Call, callee *ssa.Function, args []V
 		return fx.Fresh(types.Typ[types.String], "itoa"), true
 	case "strconv.ParseInt", "strconv.ParseUint", "strconv.ParseFloat":
 		return fx.Fresh(x.Type(), "parse"), true
-	case "(*sync.WaitGroup).Add", "(*sync.WaitGroup).Done", "(*sync.WaitGroup).Wait", "(*sync.Once).Do",
-		"(*sync.Pool).Put", "(*sync.Mutex).Lock", "(*sync.Mutex).Unlock":
+	case "sync.(*WaitGroup).Add", "sync.(*WaitGroup).Done", "sync.(*WaitGroup).Wait", "sync.(*Once).Do",
+		"sync.(*Pool).Put", "sync.(*Mutex).Lock", "sync.(*Mutex).Unlock":
 		return nil, true
 	case "sync/atomic.AddUint64":
 		p := st.ptr(x.Call.Args[0], x.Pos(), "atomic")
@@ -451,11 +464,11 @@ func (fx *FuncCtx) extern(st *State, x *ssa.Call, callee *ssa.Function, args []V
 		nv := BVAdd(old, args[1].(Term))
 		st.Store(p, nv)
 		return nv, true
-	case "(*bytes.Buffer).Len":
+	case "bytes.(*Buffer).Len":
 		r := fx.FreshSym("buflen", SBV64)
 		st.assume(BVSle(i64(0), r))
 		return r, true
-	case "(*bytes.Buffer).Next":
+	case "bytes.(*Buffer).Next":
 		n := args[1].(Term)
 		// bytes.Buffer.Next(n) returns min(n, Len()) bytes; panics only via slicing when n < 0
 		site := fx.siteText(f.fn, x.Pos(), "call")
@@ -464,6 +477,17 @@ func (fx *FuncCtx) extern(st *State, x *ssa.Call, callee *ssa.Function, args []V
 		r := fx.Fresh(types.NewSlice(types.Typ[types.Uint8]), "next").(SliceVal)
 		st.assume(BVSle(r.Len, n))
 		return r, true
+	case "bytes.NewBuffer":
+		p := fx.Fresh(x.Type(), "bytesbuf").(PtrVal)
+		p.Nil = False()
+		return p, true
+	case "bytes.(*Buffer).ReadByte":
+		return TupleVal{fx.FreshSym("readbyte", SBV8), IfaceVal{Nil: fx.FreshSym("rberr", SBool)}}, true
+	case "bytes.(*Buffer).Bytes":
+		r := fx.Fresh(types.NewSlice(types.Typ[types.Uint8]), "bufbytes").(SliceVal)
+		return r, true
+	case "bytes.(*Buffer).WriteByte", "bytes.(*Buffer).Write":
+		return fx.Fresh(x.Type(), "bufwrite"), true
 	case "encoding/binary.ReadUvarint":
 		v := fx.FreshSym("uvarint", SBV64)
 		for _, a := range fx.eng.externAssume[name] {
